@@ -195,3 +195,98 @@ def cache_families(kind, kt, vt, strat):
     add("G10-default-swap", two, [],
         [[S("SetDefaultExpiration", d=7)], [S("SetDefault", "k1", v()), S("GetWithExpiration", "k1")], [S("Set", "k2", v(), d=-1000000000), S("GetWithTTL", "k2"), S("DefaultExpiration")]])
     return fam
+
+
+def racer_families(kind, kt, vt, strat, k):
+    """C05: k racers on one key (absent / live), plus a bucket-mate writer."""
+    fam = []
+    v = Vals(100)
+    keys = {"k1": (FOCUS, 1), "k2": (FOCUS, 2)}
+    if kind in ("Map", "MapOf"):
+        for nm, pre in (("absent", []), ("live", [S("Store", "k1", v())])):
+            thr = [[S("LoadOrCompute" if i % 2 else "LoadOrStore", "k1", v())] for i in range(k)] + [[S("Store", "k2", v()), S("Delete", "k2")]]
+            fam.append(base("R%d-racers-%s/%s[%s]" % (k, nm, kind, kt), kind, kt, vt, pin_of(keys), pre, thr, ["k1", "k2"], strat))
+        thr = [[S("Compute", "k1", v(), fn="toggle")] for i in range(k)]
+        fam.append(base("R%d-compute/%s[%s]" % (k, kind, kt), kind, kt, vt, pin_of(keys), [], thr, ["k1"], strat))
+    else:
+        for nm, pre in (("absent", []), ("live", [S("Set", "k1", v(), d=50)]), ("expired", [S("Set", "k1", v(), d=5), S("Tick", d=6)])):
+            thr = [[S("GetOrCompute" if i % 2 else "GetOrSet", "k1", v(), d=100)] for i in range(k)] + [[S("Set", "k2", v(), d=5), S("Delete", "k2")]]
+            fam.append(base("R%d-racers-%s/%s[%s]" % (k, nm, kind, kt), kind, kt, vt, pin_of(keys), pre, thr, ["k1", "k2"], strat))
+        thr = [[S("Compute", "k1", v(), fn="toggle", d=100)] for i in range(k)]
+        fam.append(base("R%d-compute/%s[%s]" % (k, kind, kt), kind, kt, vt, pin_of(keys), [S("Set", "k1", v(), d=5), S("Tick", d=6)], thr, ["k1"], strat))
+    return fam
+
+
+def termination_families(kind, kt, vt, strat):
+    """C13: waiters around a resize, every early-return path followed by a revisit of the same bucket, re-entrant visitors."""
+    slots, thr = geom(kind)
+    fam = []
+    v = Vals(200)
+    full = {"k%d" % i: (FOCUS, i) for i in range(1, slots + 1)}
+    pre = [S("BulkStore", lo=1, hi=thr + 1)] + [S("Store", k, v()) for k in sorted(full)]
+    keys = dict(full, k50=(FOCUS2, 50), k51=(FOCUS, 51), k52=(FOCUS, 52))
+    # three writers arrive while one of them resizes: everybody must be woken
+    fam.append(base("T1-waiters/%s[%s]" % (kind, kt), kind, kt, vt, pin_of(keys), pre,
+                    [[S("Store", "k50", v())], [S("Store", "k51", v()), S("Load", "k51")], [S("Delete", "k1"), S("Store", "k52", v())], [S("Clear")]], ["k50", "k51", "k52"], strat))
+    # every early return of doCompute, then the same bucket is locked again by the same and by another thread
+    keys = {"k1": (FOCUS, 1), "k2": (FOCUS, 2), "k3": (FOCUS, 3)}
+    early = [S("LoadOrStore", "k1", v()), S("Delete", "k3"), S("LoadAndDelete", "k3"), S("Compute", "k3", v(), fn="del"), S("Compute", "k1", v(), fn="keep"),
+             S("LoadOrCompute", "k1", v()), S("Compute", "k1", v(), fn="del"), S("Store", "k2", v())]
+    fam.append(base("T2-early-returns/%s[%s]" % (kind, kt), kind, kt, vt, pin_of(keys), [S("Store", "k1", v())],
+                    [early, [S("Store", "k2", v()), S("Load", "k2"), S("Delete", "k2")]], ["k1", "k2", "k3"], strat))
+    # shrink abandoned / completed with waiters
+    keys = {"k1": (FOCUS, 1), "k2": (OTHER, 2), "k3": (FOCUS2, 3)}
+    pre = [S("BulkStore", lo=1, hi=thr + slots + 2), S("Store", "k1", v()), S("Store", "k2", v()), S("BulkDelete", lo=1, hi=thr + slots + 2)]
+    fam.append(base("T3-shrink-waiters/%s[%s]" % (kind, kt), kind, kt, vt, pin_of(keys), pre,
+                    [[S("Delete", "k1")], [S("Delete", "k2")], [S("Store", "k3", v()), S("Range", fn="all")]], ["k1", "k2", "k3"], strat))
+    return fam
+
+
+def solo_families(kind, kt, vt):
+    """C16: the writer is parked after every possible number of its own steps; the reader then runs alone."""
+    slots, thr = geom(kind)
+    fam = []
+    v = Vals(300)
+    is_map = kind in ("Map", "MapOf")
+    full = {"k%d" % i: (FOCUS, i) for i in range(1, slots + 1)}
+    keys = dict(full, k50=(FOCUS2, 50), k60=(OTHER, 3), k61=(OTHER, 4))
+    pin = pin_of(keys)
+    st = "Store" if is_map else "Set"
+    grow_pre = [S("BulkStore", lo=1, hi=thr + 1)] + [S(st, k, v(), d=0) for k in sorted(full)] + [S(st, "k60", v())]
+    small_pre = [S(st, "k1", v()), S(st, "k2", v()), S(st, "k60", v())]
+    if is_map:
+        writers = {
+            "store-update": (small_pre, [S("Store", "k1", v())]),
+            "store-insert": (small_pre, [S("Store", "k3", v())]),
+            "compute-fn": (small_pre, [S("Compute", "k1", v(), fn="set")]),
+            "loadorcompute-fn": (small_pre, [S("LoadOrCompute", "k3", v())]),
+            "delete": (small_pre, [S("Delete", "k1")]),
+            "grow": (grow_pre, [S("Store", "k50", v())]),
+            "clear": (small_pre, [S("Clear")]),
+            "range": (small_pre, [S("Range", fn="all")]),
+        }
+        readers = {
+            "load-same": [S("Load", "k1")], "load-mate": [S("Load", "k2")], "load-unrelated": [S("Load", "k60")], "load-absent": [S("Load", "k61")],
+            "loadorstore-hit": [S("LoadOrStore", "k2", v())], "loadorcompute-hit": [S("LoadOrCompute", "k60", v())], "size": [S("Size")],
+        }
+    else:
+        writers = {
+            "set-update": (small_pre, [S("Set", "k1", v(), d=50)]),
+            "getorcompute-fn": (small_pre, [S("GetOrCompute", "k3", v(), d=50)]),
+            "compute-fn": (small_pre, [S("Compute", "k1", v(), fn="set", d=50)]),
+            "delete": (small_pre, [S("Delete", "k1")]),
+            "grow": (grow_pre, [S("Set", "k50", v())]),
+            "clear": (small_pre, [S("Clear")]),
+            "deleteexpired": ([S("Set", "k3", v(), d=5), S("Tick", d=6)] + small_pre, [S("DeleteExpired")]),
+        }
+        readers = {
+            "get-same": [S("Get", "k1")], "get-mate": [S("GetWithTTL", "k2")], "get-unrelated": [S("GetWithExpiration", "k60")], "get-absent": [S("Get", "k61")],
+            "count": [S("Count")],
+        }
+    for wn, (pre, w) in writers.items():
+        for rn, r in readers.items():
+            if wn == "clear" and rn in ("loadorstore-hit", "loadorcompute-hit"):
+                continue  # after Clear published, the key is absent and the call is a get-or-CREATE (a writer): outside C16
+            sc = base("S-%s-vs-%s/%s[%s]" % (wn, rn, kind, kt), kind, kt, vt, pin, pre, [w, r], ["k1", "k2", "k3"], {"kind": "solo", "writer": 1, "reader": 2, "parkat": -1, "ownmax": 200})
+            fam.append(sc)
+    return fam
